@@ -24,6 +24,14 @@
      [C13] the class a get reports is the requested one or one the policy rates Match / Steal
      [C15] a get that started after a tree went offline (and before it is brought online) never returns
            a frame of that tree
+     [C05] SNAP lines (`--snapshots`: the lower buffer recovered after the prologue and after every write to it):
+           lower_invb of the recovered state; every block held by the client (from the implementation's results) and
+           every block in the hands of an in-flight get (`in_hand` of the machine state, UpperCrash.v) is still allocated
+           and freeable (spec_put_enabled on abs); every frame allocated after recovery is covered by such a block or
+           touched by an in-flight lower call (`touched_b` on `m1_of`; a frame that only the stale-split window of a
+           partial free explains is reported as NOTE stale-split-leak); recovered stats = accounting of abs, fast count =
+           exact count, validate() of the recovered instance passes.  CORR[snap]: lower_recover of the machine's lower
+           memory = the recovered buffer
      [C21] SOLO lines (freeze mode): within the harness budget, not ending in a wait-panic
    usage: ustep.exe ustep <transcript|-> [keys-file] *)
 open Model
@@ -41,7 +49,8 @@ let emit kind tag text =
   bump kind_counts kind;
   let key = kind ^ tag in
   bump tag_counts key;
-  if get tag_counts key <= per_tag_limit then Printf.printf "MISMATCH %s %s %s\n" kind tag text
+  if get tag_counts key <= per_tag_limit then
+    if kind = "NOTE" then Printf.printf "NOTE %s %s\n" tag text else Printf.printf "MISMATCH %s %s %s\n" kind tag text
 
 (* ---------- small helpers ---------- *)
 let contains s sub =
@@ -152,6 +161,9 @@ type run = {
   mutable diverged : bool;
   mutable cur : icall option array;
   mutable started : int array;           (* event counter at the start of the thread's call *)
+  mutable sawmark : bool array;          (* the in-flight small-order put read the huge marker at its first access *)
+  mutable firststep : bool array;
+  mutable limbo : (icall * bool) list;   (* calls that panicked: their blocks stay touched *)
   mutable iheld : (int * int) list;      (* blocks held by the client, from the implementation's results *)
   mutable offline : (int * int) list;    (* (tree, event counter when its offline call returned) *)
   mutable clock : int;                   (* counts CALL / S / RET lines *)
@@ -176,7 +188,7 @@ type run = {
 let r =
   { id = ""; scenario = ""; mode = ""; cfg = ""; g = { hord = nat_of_int 9; tlog = nat_of_int 2 };
     pol = (fun _ _ _ -> PInvalid); polname = ""; classes = []; dflt = 0; hf = 512; tf = 2048; thuge = 4; nframes = 0; nthreads = 0;
-    ms = None; diverged = false; cur = [||]; started = [||]; iheld = []; offline = []; clock = 0; run_panics = 0;
+    ms = None; diverged = false; cur = [||]; started = [||]; sawmark = [||]; firststep = [||]; limbo = []; iheld = []; offline = []; clock = 0; run_panics = 0;
     post_drained = false; post_stats = None; last_stats = None; pending_tstats = None; pending_validate = None; post_tstats = None; post_validate = None; end_dump = None; msgs = [];
     sched = "?"; tids = Buffer.create 64; nontrivial = false; prev = -1; nsteps = 0; active = false }
 
@@ -288,6 +300,9 @@ let boot_run tokens =
   r.cfg <- Printf.sprintf "th%d/%d/%s/%s/d%d/%s" th fr init r.polname r.dflt (kv_exn tokens "classes");
   r.cur <- Array.make nt None;
   r.started <- Array.make nt 0;
+  r.sawmark <- Array.make nt false;
+  r.firststep <- Array.make nt false;
+  r.limbo <- [];
   let frn = n_of_int fr in
   let nslots = List.fold_left (fun a (_, n) -> a + n) 0 r.classes in
   let classing = List.map (fun (c, n) -> (n_of_int c, n_of_int n)) r.classes in
@@ -400,6 +415,8 @@ let do_call tid call =
   r.cur.(tid) <- Some call;
   r.clock <- r.clock + 1;
   r.started.(tid) <- r.clock;
+  r.sawmark.(tid) <- false;
+  r.firststep.(tid) <- true;
   start_call (Printf.sprintf "thread %d" tid) call;
   match r.ms with
   | None -> ()
@@ -434,6 +451,12 @@ let do_step tid line fields =
   match fields with
   | [ kind; what; a; b; off; width; found; nw; ok ] -> (
       bump loc_hist what;
+      if tid < Array.length r.firststep && r.firststep.(tid) then begin
+        r.firststep.(tid) <- false;
+        (match r.cur.(tid) with
+        | Some (IPut (_, o, _, _)) when o < int_of_nat r.g.hord && kind = "load" && what = "ent" && found = "ffff" -> r.sawmark.(tid) <- true
+        | _ -> ())
+      end;
       if kind = "cas" && ok = "0" then begin
         r.nontrivial <- true;
         incr failed_cas
@@ -475,6 +498,7 @@ let do_ret tid impl =
   let call = match r.cur.(tid) with Some c -> c | None -> failwith "RET without CALL" in
   r.cur.(tid) <- None;
   r.clock <- r.clock + 1;
+  if starts impl "panic" then r.limbo <- (call, r.sawmark.(tid)) :: r.limbo;
   (match r.ms with
   | None -> ()
   | Some ms -> (
@@ -642,6 +666,176 @@ let do_post tokens =
       run_solo_line "[post]" "post-run" call impl;
       if call = IDrain then r.post_drained <- true
 
+(* ---------- C05: a crash here (SNAP lines) ---------- *)
+let snaps = ref 0
+let snap_hits = ref 0
+let snap_memo : (string, (string * string * string) list) Hashtbl.t = Hashtbl.create 4096
+
+let bits_array (x : n) (len : int) : bool array =
+  let a = Array.make len false in
+  List.iteri (fun i b -> if i < len && b = 1 then a.(i) <- true) (bits_of_n x);
+  a
+
+let replace_all s sub by =
+  let n = String.length sub in
+  let b = Buffer.create (String.length s) in
+  let i = ref 0 in
+  while !i < String.length s do
+    if !i + n <= String.length s && String.sub s !i n = sub then (Buffer.add_string b by; i := !i + n)
+    else (Buffer.add_char b s.[!i]; incr i)
+  done;
+  Buffer.contents b
+
+(* can the frames of `l` (sorted) be covered by one aligned block per in-flight get?  (any tree unless targeted) *)
+let rec cover (l : int list) (gets : icall list) : bool =
+  match l with
+  | [] -> true
+  | x :: _ ->
+      let try_get gcall =
+        let blk =
+          match gcall with
+          | IGet (None, o, _, _) -> Some (x land lnot ((1 lsl o) - 1), o)
+          | IGet (Some f, o, _, _) -> if f <= x && x < f + (1 lsl o) then Some (f, o) else None
+          | _ -> None
+        in
+        match blk with
+        | None -> false
+        | Some (bf, bo) ->
+            let rest = List.filter (fun y -> y < bf || y >= bf + (1 lsl bo)) l in
+            let rec remove_one = function [] -> [] | a :: q -> if a == gcall then q else a :: remove_one q in
+            cover rest (remove_one gets)
+      in
+      List.exists try_get gets
+
+let snap_checks rest inflight (ms : m2state option) : (string * string * string) list =
+  let out = ref [] in
+  let add kind tag text = out := (kind, tag, text) :: !out in
+  let ents = parse_hexlist (kv_exn rest "ents") and rows = parse_rows (kv_exn rest "rows") in
+  let l = { frames = n_of_int r.nframes; bfs = rows; ents } in
+  let where = Printf.sprintf "snapshot at step @STEP@ (in flight: %s)" inflight in
+  (match ms with
+  | Some ms ->
+      let m = lower_recover r.g ms.m2_up.low in
+      if show_list m.ents <> show_list ents || show_rows m.bfs <> show_rows rows then
+        add "CORR" "[snap]"
+          (Printf.sprintf "%s: recovered impl=[ents=%s rows=%s] model=[ents=%s rows=%s]" where (show_list ents) (show_rows rows)
+             (show_list m.ents) (show_rows m.bfs))
+  | None -> ());
+  if not (lower_invb r.g l) then
+    add "ORACLE" "[C05]" (Printf.sprintf "%s: lower_invb fails on the recovered state ents=%s rows=%s" where (show_list ents) (show_rows rows));
+  let a = abs r.g l in
+  (* blocks that must have survived: held by the client + in the hands of in-flight gets (machine ghost) *)
+  let hand = match ms with Some ms -> List.map (fun (f, o) -> (int_of_n f, int_of_nat o)) (in_hand r.g ms) | None -> [] in
+  List.iter
+    (fun (f, o) ->
+      if not (spec_put_enabled r.g a (n_of_int f) (nat_of_int o)) then
+        add "ORACLE" "[C05]" (Printf.sprintf "%s: held block frame %d order %d is not allocated/freeable after recovery" where f o))
+    r.iheld;
+  List.iter
+    (fun (f, o) ->
+      if not (spec_put_enabled r.g a (n_of_int f) (nat_of_int o)) then
+        add "ORACLE" "[C05]" (Printf.sprintf "%s: block frame %d order %d, taken from the lower allocator by an in-flight get, is not allocated/freeable after recovery" where f o))
+    hand;
+  let alloc = bits_array a.o_alloc r.nframes in
+  let owned = Array.make r.nframes false in
+  let mark (f, o) = for i = f to min (r.nframes - 1) (f + (1 lsl o) - 1) do owned.(i) <- true done in
+  List.iter mark r.iheld;
+  (* the implementation-only view (as driver/step.ml): in-flight frees touch their block, in-flight gets may hold one block *)
+  let gets = ref [] in
+  let touch = function IPut (f, o, _, _) -> mark (f, o) | IGet _ as c -> gets := c :: !gets | _ -> () in
+  Array.iter (function Some c -> touch c | None -> ()) r.cur;
+  List.iter (fun (c, _) -> touch c) r.limbo;
+  let leaked_of owned =
+    let l = ref [] in
+    for i = r.nframes - 1 downto 0 do
+      if alloc.(i) && not owned.(i) then l := i :: !l
+    done;
+    !l
+  in
+  let strict = leaked_of owned in
+  let owned2 = Array.copy owned in
+  let see c saw = match c with IPut (f, _, _, _) when saw -> for i = f / r.hf * r.hf to min (r.nframes - 1) (((f / r.hf) + 1) * r.hf - 1) do owned2.(i) <- true done | _ -> () in
+  Array.iteri (fun t c -> match c with Some c -> see c r.sawmark.(t) | None -> ()) r.cur;
+  List.iter (fun (c, saw) -> see c saw) r.limbo;
+  let relaxed = leaked_of owned2 in
+  let strict_ok = cover strict !gets and relaxed_ok = cover relaxed !gets in
+  (match ms with
+  | Some ms ->
+      (* the theorem's form: covered by held / in hand, or touched by an in-flight lower call of the machine's view *)
+      let m1 = m1_of r.g ms in
+      List.iter mark hand;
+      let bad = List.filter (fun f -> (not owned.(f)) && not (touched_b r.g m1 (n_of_int f))) (leaked_of owned) in
+      if bad <> [] then
+        add "ORACLE" "[C05]"
+          (Printf.sprintf "%s: %d frames are allocated after recovery but neither held, in the hands of an in-flight get, nor touched by an in-flight lower call (first: %d)"
+             where (List.length bad) (List.hd bad))
+      else if not relaxed_ok then
+        add "ORACLE" "[C05]"
+          (Printf.sprintf "%s: %d frames that were free and untouched are allocated after recovery (first: %d)" where (List.length relaxed) (List.hd relaxed))
+  | None ->
+      if not relaxed_ok then
+        add "ORACLE" "[C05]"
+          (Printf.sprintf "%s: %d frames that were free and untouched are allocated after recovery (first: %d)" where (List.length relaxed) (List.hd relaxed)));
+  if relaxed_ok && not strict_ok then
+    add "NOTE" "stale-split-leak"
+      (Printf.sprintf "%s: %d free frames outside the in-flight partial free's own block are allocated after recovery (first: %d); all inside the huge frame it is splitting"
+         where (List.length strict) (List.hd strict));
+  (match kv rest "stats" with
+  | Some st -> (
+      match String.split_on_char ',' st with
+      | [ ff; fh; _ft ] ->
+          let ef = dec_of_n (exact_free a) and eh = dec_of_n (free_huge_count r.g a) in
+          if ff <> ef then add "ORACLE" "[C05]" (Printf.sprintf "%s: recovered stats free_frames=%s but abs has %s free frames" where ff ef);
+          if fh <> eh then add "ORACLE" "[C05]" (Printf.sprintf "%s: recovered stats free_huge=%s but abs has %s free huge frames" where fh eh);
+          (match kv rest "tstats" with
+          | Some ts when ts <> ff -> add "ORACLE" "[C05]" (Printf.sprintf "%s: after recovery the fast count tree_stats.free_frames=%s differs from stats.free_frames=%s" where ts ff)
+          | _ -> ())
+      | _ -> failwith "bad stats")
+  | None -> ());
+  (match kv rest "validate" with
+  | Some v when v <> "ok" ->
+      let rec after = function [] -> "" | t :: q -> if starts t "validate=" then String.concat " " (t :: q) else after q in
+      add "ORACLE" "[C05]" (Printf.sprintf "%s: validate() of the recovered allocator fails: %s" where (after rest))
+  | _ -> ());
+  List.rev !out
+
+let do_snap tokens =
+  incr snaps;
+  match tokens with
+  | step :: "panic" :: rest -> oracle "[C05]" (Printf.sprintf "snapshot %s: recovery panics: %s" step (String.concat " " rest))
+  | step :: rest ->
+      let inflight =
+        String.concat ", "
+          (List.filter_map (fun x -> x)
+             (Array.to_list
+                (Array.mapi
+                   (fun t c -> match c with Some c -> Some (Printf.sprintf "t%d %s%s" t (show_icall c) (if r.sawmark.(t) then " (saw marker)" else "")) | None -> None)
+                   r.cur))
+          @ List.map (fun (c, saw) -> "panicked " ^ show_icall c ^ if saw then " (saw marker)" else "") r.limbo)
+      in
+      let key =
+        String.concat "|"
+          [ r.cfg; String.concat " " rest; inflight;
+            String.concat " " (List.map (fun (f, o) -> Printf.sprintf "%d/%d" f o) (List.sort compare r.iheld));
+            (match r.ms with
+            | Some ms -> Marshal.to_string (ms.m2_up.low, (m1_of r.g ms).ms_pool, in_hand r.g ms) []
+            | None -> "-") ]
+      in
+      let res =
+        match Hashtbl.find_opt snap_memo key with
+        | Some x -> incr snap_hits; x
+        | None ->
+            let x = snap_checks rest inflight r.ms in
+            Hashtbl.replace snap_memo key x;
+            x
+      in
+      List.iter
+        (fun (kind, tag, text) ->
+          let text = replace_all text "@STEP@" step in
+          if kind = "CORR" then corr tag text else note kind tag text)
+        res
+  | [] -> failwith "bad SNAP"
+
 let do_solo tokens =
   incr solos;
   match tokens with
@@ -725,7 +919,7 @@ let suite file keys =
           if tag = "[scenario]" then note "CORR" tag ("harness: " ^ t) else oracle tag ("harness: " ^ t)
       | "END-ABORTED" :: _ -> ()   (* the harness gave up on a run whose solo call exceeded its budget (HFAIL line precedes) *)
       | "X" :: _ -> note "CORR" "[step]" ("access outside the three buffers: " ^ line)
-      | "SNAP" :: _ -> ()
+      | "SNAP" :: rest -> do_snap rest
       | [] -> ()
       | "#" :: _ -> ()
       | _ -> failwith ("ustep: bad line " ^ line));
@@ -738,10 +932,10 @@ let suite file keys =
   | None -> ());
   let hist h prefix = String.concat " " (List.sort compare (Hashtbl.fold (fun k v acc -> Printf.sprintf "%s%s=%d" prefix k v :: acc) h [])) in
   Printf.printf
-    "SUMMARY suite=ustep evaluations=%d distinct=%d runs=%d maxsteps=%d failed_cas=%d pre=%d post=%d quiescent=%d solos=%d solomax=%d panics=%d known_panics=%d corr=%d oracle=%d corr_runs=%d c01=%d c03=%d c04=%d c10=%d c13=%d c15=%d c21=%d %s %s %s\n"
-    !evals (Hashtbl.length distinct) !runs !maxsteps !failed_cas !pre_calls !post_calls !quiescent !solos !solomax !panics !known_panics
+    "SUMMARY suite=ustep evaluations=%d distinct=%d runs=%d maxsteps=%d failed_cas=%d pre=%d post=%d quiescent=%d snaps=%d stale_split_leaks=%d solos=%d solomax=%d panics=%d known_panics=%d corr=%d oracle=%d corr_runs=%d c01=%d c03=%d c04=%d c10=%d c13=%d c05=%d c15=%d c21=%d %s %s %s\n"
+    !evals (Hashtbl.length distinct) !runs !maxsteps !failed_cas !pre_calls !post_calls !quiescent !snaps (get tag_counts "NOTEstale-split-leak") !solos !solomax !panics !known_panics
     (get kind_counts "CORR") (get kind_counts "ORACLE") !corr_runs (get tag_counts "ORACLE[C01]") (get tag_counts "ORACLE[C03]")
-    (get tag_counts "ORACLE[C04]") (get tag_counts "ORACLE[C10]") (get tag_counts "ORACLE[C13]") (get tag_counts "ORACLE[C15]")
+    (get tag_counts "ORACLE[C04]") (get tag_counts "ORACLE[C10]") (get tag_counts "ORACLE[C13]") (get tag_counts "ORACLE[C05]") (get tag_counts "ORACLE[C15]")
     (get tag_counts "ORACLE[C21]") (hist loc_hist "acc:") (hist mode_hist "mode:") (hist scn_hist "scn:")
 
 let () =
